@@ -301,6 +301,18 @@ theorem C08_reset_sites :
       Facts.genStateWrites.any (fun w => w.1 = c.1.1 && w.2.2.1 = c.1.2.2 && resetSites.contains w.2.1
         && (w.2.2.2 = "set" || w.2.2.2 = "addr"))) = true := by decide
 
+/-- `-file=F` only decides WHICH types are listed (`TestFile` in the four `ListTypes`) and how the output is named
+    (`LoadPackage`, `confirmTypes`, `fileName`); no per-type step (`MakeData` and what it calls - e.g. the collection of an enum
+    type's constants, which walks ALL files of the package) sees the flag in the CURRENT source.  That is what makes the
+    all-in-one output the merge of the one-at-a-time outputs (`C08_allinone`): regenerated table `Facts.fileFlagSites` -/
+theorem C08_file_flag_sites :
+    Facts.fileFlagSites =
+      [("internal/constructor", "(Generator).ListTypes", "TestFile"), ("internal/enumer", "(Generator).ListTypes", "TestFile"),
+       ("internal/mapper", "(Generator).ListTypes", "TestFile"), ("internal/restclient", "(Generator).ListTypes", "TestFile"),
+       ("internal/shoot", "(GeneratorBase).LoadPackage", "FileName"), ("internal/shoot", "(GeneratorBase).TestFile", "FileName"),
+       ("internal/shoot", "(GeneratorBase).confirmTypes", "FileName"), ("internal/shoot", "(GeneratorBase).fileName", "FileName")] := by
+  decide
+
 /-- every field classified `config` is never written by a per-type entry point -/
 theorem C08_config_sites :
     classTable.all (fun c => c.2 ≠ Class.config ||
